@@ -178,7 +178,7 @@ def o0 : RulesF.Oracles := ⟨fun _ _ => true, fun _ => true, fun _ => true, fun
 def lit (jt : JT) (off : Nat) (tok : RulesF.Bytes) (cs : List Cn) : Node :=
   .mk { nk := .lit, jt := jt, lex := ⟨.litEnd, 0, off, tok⟩, cs := cs } []
 
-def tT : TypeEntry := ⟨[64, 116], 1, 0, [102, 49], .mk { nk := .lit, jt := .integer, lex := ⟨.litEnd, 1, 0, [57]⟩, cs := [.min [56] false] } []⟩
+def tT : TypeEntry := ⟨[64, 116], 1, 0, [102, 49], .mk { nk := .lit, jt := .integer, lex := ⟨.litEnd, 1, 0, [57]⟩, cs := [.min [56] false] } [], []⟩
 
 /-- two violated rules (`5` against `max: 3` at offset 2, `"ab"` against `maxLength: 1` at offset 24) and a reference that
 fails (`7` against `min: 8` of `@t` at offset 70) -/
@@ -214,13 +214,21 @@ example : checkSchema o0 ⟨some (.mk { nk := .arr, jt := .array, lex := ⟨.oth
 /-- two offending unnamed types (or-shortcut nodes of the files "f2" and "f1", both naming an undefined type): the one of "f1"
 is reported, whatever their order in the table and whatever their names (addresses) -/
 example : checkSchema o0 ⟨none,
-    [⟨[35, 49], 2, 0, [102, 50], .mk { nk := .mixedValue, jt := .mixed, lex := ⟨.other, 2, 5, []⟩, cs := [.typesList [[64, 120]]] } []⟩,
-     ⟨[35, 50], 1, 0, [102, 49], .mk { nk := .mixedValue, jt := .mixed, lex := ⟨.other, 1, 9, []⟩, cs := [.typesList [[64, 121]]] } []⟩]⟩
+    [⟨[35, 49], 2, 0, [102, 50], .mk { nk := .mixedValue, jt := .mixed, lex := ⟨.other, 2, 5, []⟩, cs := [.typesList [[64, 120]]] } [], []⟩,
+     ⟨[35, 50], 1, 0, [102, 49], .mk { nk := .mixedValue, jt := .mixed, lex := ⟨.other, 1, 9, []⟩, cs := [.typesList [[64, 121]]] } [], []⟩]⟩
     = .err 1302 1 9 (some [35, 50]) := by decide +kernel
 /-- an error inside a type names the type and its file: `@t = 9 // {min: 10}` -/
 example : checkSchema o0 ⟨some (lit .integer 0 [55] []),
-    [⟨[64, 116], 1, 0, [102, 49], .mk { nk := .lit, jt := .integer, lex := ⟨.litEnd, 1, 3, [57]⟩, cs := [.min [49, 48] false] } []⟩]⟩
+    [⟨[64, 116], 1, 0, [102, 49], .mk { nk := .lit, jt := .integer, lex := ⟨.litEnd, 1, 3, [57]⟩, cs := [.min [49, 48] false] } [], []⟩]⟩
     = .err 602 1 3 (some [64, 116]) := by decide +kernel
+/-- fix F-38: two or-shortcuts at the same offset of two objects created with the SAME file name (`f`) and different
+texts (`@m1 | @n`, `@m2 | @n`): the text of the file decides which is visited (and reported) first, whatever their names
+(addresses) are -/
+example :
+    let a : TypeEntry := ⟨[35, 57], 1, 0, [102], .mk { nk := .mixedValue, jt := .mixed, lex := ⟨.other, 1, 0, []⟩, cs := [.typesList [[64, 109, 49]]] } [], [64, 109, 49]⟩
+    let b : TypeEntry := ⟨[35, 49], 2, 0, [102], .mk { nk := .mixedValue, jt := .mixed, lex := ⟨.other, 2, 0, []⟩, cs := [.typesList [[64, 109, 50]]] } [], [64, 109, 50]⟩
+    typeGoesFirst a b = true ∧ typeGoesFirst b a = false ∧
+    (checkSchema o0 ⟨none, [a, b]⟩ = checkSchema o0 ⟨none, [b, a]⟩) := by decide +kernel
 /-- `ArraysFlat` holds for the table of `bad` (hypothesis of `C04_checker_no_crash`) -/
 example : ArraysFlat bad.env := by
   intro n t hl hk
